@@ -1313,6 +1313,212 @@ def judge_o_intdata(inp, obs, lr):
     return None
 
 
+
+# ---- G12: magnitudes - objects almost through the centre of the ball, endpoints far from the centre ---------------
+def _unit(rng, dim):
+    v = np.array([rng.gauss(0, 1) for _ in range(dim)])
+    return v / np.linalg.norm(v)
+
+
+def _near_origin_unit(rng, dim, h, segment):
+    """Klein endpoints of a geodesic (or a segment on it) whose chord passes at Klein distance h from the centre"""
+    u = _unit(rng, dim)
+    w = _unit(rng, dim)
+    w = w - (w @ u) * u
+    w = w / np.linalg.norm(w)
+    m, L = h * w, math.sqrt(1 - h * h)
+    if segment:
+        a, b = rng.uniform(-0.9, -0.1), rng.uniform(0.1, 0.9)
+        return (m + a * L * u).tolist(), (m + b * L * u).tolist(), m.tolist()
+    return (m + L * u).tolist(), (m - L * u).tolist(), m.tolist()
+
+
+def gen_o_magnitude(rng, n):
+    for _ in range(n):
+        what = rng.choice(["near_origin", "near_origin", "far_endpoint"])
+        if what == "near_origin":
+            dim = rng.choice([2, 2, 3, 4])
+            h = 10 ** rng.uniform(-7, -2)
+            seg = rng.random() < 0.5
+            k1, k2, m = _near_origin_unit(rng, dim, h, seg)
+            yield {"what": what, "dim": dim, "h": h, "segment": seg, "k1": k1, "k2": k2, "m": m, "degrees": rng.random() < 0.5}
+        else:
+            # one endpoint at hyperbolic distance 10..16 from the centre (1 - |k|^2 between 8e-9 and 5e-14), given on the hyperboloid
+            d1, d2 = rng.uniform(10, 16), rng.choice([rng.uniform(0.2, 2.5), rng.uniform(10, 16)])
+            t1 = rng.uniform(0, 2 * math.pi)
+            t2 = t1 + rng.choice([-1, 1]) * rng.uniform(0.5, 2.6)
+            yield {"what": what, "dim": 2, "d": [d1, d2], "th": [t1, t2], "degrees": rng.random() < 0.5, "swap": rng.random() < 0.5}
+
+
+def run_o_magnitude(inp):
+    dim = inp["dim"]
+    if inp["what"] == "near_origin":
+        k1, k2 = np.array(inp["k1"]), np.array(inp["k2"])
+        if inp["segment"]:
+            obj = H.Segment(H.Point(k1, model="klein"), H.Point(k2, model="klein"))
+        else:
+            obj = H.Geodesic(H.IdealPoint(H.Point(k1, model="klein").proj_data.copy()), H.IdealPoint(H.Point(k2, model="klein").proj_data.copy()))
+        c, r = obj.sphere_parameters("poincare")
+        out = {"c": np.array(c, dtype=float).tolist(), "r": float(r)}
+        ch, rh = obj.sphere_parameters("halfspace")
+        eh = np.array(obj.endpoint_coords("halfspace"), dtype=float)
+        out["half"] = [float(rh), float(max(abs(np.linalg.norm(x - np.array(ch, dtype=float)) - float(rh)) for x in eh)), float(np.abs(eh).max())]
+        if dim == 2:
+            c2, r2, th = obj.circle_parameters(degrees=inp["degrees"], model="poincare")
+            th = np.array(th, dtype=float) * (math.pi / 180 if inp["degrees"] else 1.0)
+            pts, ext = _arc_points(np.array(c2, dtype=float), float(r2), th, 2)
+            kk = np.stack([k1, k2])
+            pp = kk / (1 + np.sqrt(np.maximum(0.0, 1 - (kk ** 2).sum(-1))))[:, None] if inp["segment"] else kk
+            out["arc_ends"] = _ends_err(pts, pp)
+            out["extent"] = float(ext)
+        return out
+    d, th = inp["d"], inp["th"]
+    X = np.array([[math.cosh(di), math.sinh(di) * math.cos(ti), math.sinh(di) * math.sin(ti)] for di, ti in zip(d, th)])
+    if inp["swap"]:
+        X = X[::-1]
+    obj = H.Segment(H.Point(X.copy()))
+    c, r, ang = obj.circle_parameters(degrees=inp["degrees"], model="poincare")
+    ang = np.array(ang, dtype=float) * (math.pi / 180 if inp["degrees"] else 1.0)
+    pts, ext = _arc_points(np.array(c, dtype=float), float(r), ang, 2)
+    # reference in extended precision: the Poincare endpoints tanh(d/2) u and the circle through them orthogonal to the unit circle
+    LD = np.longdouble
+    P = np.array([[np.tanh(LD(di) / 2) * np.cos(LD(ti)), np.tanh(LD(di) / 2) * np.sin(LD(ti))] for di, ti in zip(d, th)], dtype=LD)
+    b = np.array([1 + P[0] @ P[0], 1 + P[1] @ P[1]], dtype=LD)
+    det = 4 * (P[0, 0] * P[1, 1] - P[0, 1] * P[1, 0])
+    cref = np.array([(b[0] * 2 * P[1, 1] - b[1] * 2 * P[0, 1]) / det, (2 * P[0, 0] * b[1] - 2 * P[1, 0] * b[0]) / det], dtype=LD)
+    rref = np.sqrt(cref @ cref - 1)
+    return {"arc_ends": _ends_err(pts, P.astype(float)), "extent": float(ext), "c_err": float(np.abs(np.array(c, dtype=float) - cref.astype(float)).max()),
+            "r_err": abs(float(r) - float(rref)), "rref": float(rref)}
+
+
+def judge_o_magnitude(inp, obs, lr):
+    tags = {"what": inp["what"], "dim": inp["dim"]}
+    if "exc" in obs:
+        return {"expected": "circle parameters", "observed": obs, "tags": dict(tags, exc=obs["exc"])}
+    if inp["what"] == "near_origin":
+        h = inp["h"]
+        m = np.array(inp["m"])
+        cref, rref = m / (h * h), math.sqrt(1 / (h * h) - 1)
+        # the pinned tree is accurate to about 5e-16 / h relative (measured); 2e-13 / h is asked for
+        rel = 2e-13 / h
+        c = np.array(obs["c"])
+        if not (np.all(np.isfinite(c)) and math.isfinite(obs["r"]) and abs(obs["r"] - rref) <= rel * rref and np.abs(c - cref).max() <= rel * np.linalg.norm(cref)):
+            return {"expected": {"centre m/|m|^2, radius sqrt(1/|m|^2 - 1)": [cref.tolist(), rref]}, "observed": obs,
+                    "tags": dict(tags, segment=inp["segment"], log10_h=round(math.log10(h)))}
+        # ideal endpoints are routed through kleinian_to_poincare, which keeps half of the digits (1e-6 as everywhere in C14)
+        if "arc_ends" in obs and not (obs["arc_ends"] <= (rel if inp["segment"] else 1e-6) and obs["extent"] <= math.pi + 1e-6):
+            return {"expected": "arc between the endpoints (a nearly straight arc of a huge circle)", "observed": obs,
+                    "tags": dict(tags, segment=inp["segment"], log10_h=round(math.log10(h)), what2="arc")}
+        hf = obs["half"]
+        if not (math.isfinite(hf[0]) and hf[1] <= 1e-7 * (1 + hf[0]) * (1 + hf[2])):
+            return {"expected": "half-space sphere through the endpoints", "observed": hf, "tags": dict(tags, model="halfspace")}
+        return None
+    # the pinned tree places the far endpoint to about 1e-16 e^d / 4 (measured); 2e-15 e^d is asked for
+    tol = 2e-15 * math.exp(max(inp["d"]))
+    if not (obs["arc_ends"] <= tol and obs["extent"] <= math.pi + 1e-6 and obs["c_err"] <= 1e-9 * (1 + obs["rref"]) and obs["r_err"] <= 1e-9 * (1 + obs["rref"])):
+        return {"expected": "arc ends at the Poincare images tanh(d/2) u of the endpoints, circle through them orthogonal to the unit circle",
+                "observed": obs, "tags": dict(tags, d=[round(x) for x in inp["d"]])}
+    return None
+
+
+# ---- G16: composites of mixed kinds --------------------------------------------------------------------------------
+def gen_o_mixed(rng, n):
+    for _ in range(n):
+        dim = rng.choice([2, 2, 3, 4])
+        kind = rng.choice(["geodesic", "geodesic", "segment"])
+        cnt = rng.choice([2, 3, 4, dim + 1, 6])
+        units, kinds = [], []
+        for j in range(cnt):
+            kk = rng.choice(["ordinary", "ordinary", "infinity", "near_origin", "far"] if kind == "geodesic" else ["ordinary", "ordinary", "near_origin", "far"])
+            if kk == "infinity":
+                # an ideal endpoint exactly at the point at infinity of the half-space model (Klein (1, 0, .., 0))
+                e = [1.0] + [0.0] * (dim - 1)
+                while True:
+                    f = G.fsphere(rng, dim)
+                    if f[0] < 0.8:
+                        break
+                k1, k2 = (e, f) if rng.random() < 0.5 else (f, e)
+            elif kk == "near_origin":
+                k1, k2, _ = _near_origin_unit(rng, dim, 10 ** rng.uniform(-6, -3), kind == "segment")
+                if max(k1[0], k2[0]) > 0.8:
+                    kk = "ordinary"
+            if kk in ("ordinary", "far"):
+                while True:
+                    e1, e2 = np.array(G.fsphere(rng, dim)), np.array(G.fsphere(rng, dim))
+                    if np.linalg.norm(e1 - e2) > 0.3 and np.linalg.norm(e1 + e2) > 0.3 and e1[0] < 0.8 and e2[0] < 0.8:
+                        break
+                if kind == "segment":
+                    t1, t2 = rng.uniform(0.1, 0.45), rng.uniform(0.55, 0.9)
+                    if kk == "far":
+                        t1 = 10 ** rng.uniform(-10, -7)          # an endpoint at distance about 8..12 from the centre
+                    k1, k2 = (t1 * e2 + (1 - t1) * e1).tolist(), (t2 * e2 + (1 - t2) * e1).tolist()
+                else:
+                    k1, k2 = e1.tolist(), e2.tolist()
+            units.append([k1, k2])
+            kinds.append(kk)
+        yield {"dim": dim, "kind": kind, "units": units, "kinds": kinds, "degrees": rng.random() < 0.5}
+
+
+def _mixed_build(kind, U):
+    P1 = H.Point(U[..., 0, :].copy(), model="klein")
+    P2 = H.Point(U[..., 1, :].copy(), model="klein")
+    if kind == "geodesic":
+        return H.Geodesic(H.IdealPoint(P1.proj_data.copy()), H.IdealPoint(P2.proj_data.copy()))
+    return H.Segment(P1, P2)
+
+
+def _mixed_answers(obj, dim, degrees):
+    out = []
+    for model in ("poincare", "halfspace"):
+        with np.errstate(all="ignore"):
+            c, r = obj.sphere_parameters(model)
+            out += [np.array(c, dtype=float), np.array(r, dtype=float)]
+            if dim == 2:
+                c2, r2, th = obj.circle_parameters(degrees=degrees, model=model)
+                th = np.array(th, dtype=float) * (math.pi / 180 if degrees else 1.0)
+                out += [np.array(c2, dtype=float), np.array(r2, dtype=float), np.cos(th), np.sin(th)]
+    return out
+
+
+def run_o_mixed(inp):
+    dim = inp["dim"]
+    U = np.array(inp["units"])
+    comp = _mixed_answers(_mixed_build(inp["kind"], U), dim, inp["degrees"])
+    worst, where = 0.0, None
+    nan_ordinary = False
+    for j in range(len(U)):
+        single = _mixed_answers(_mixed_build(inp["kind"], U[j]), dim, inp["degrees"])
+        for q, (a, b) in enumerate(zip(comp, single)):
+            a = np.asarray(a[j], dtype=float)
+            b = np.asarray(b, dtype=float)
+            if a.shape != b.shape:
+                return {"shape": [list(a.shape), list(b.shape)], "j": j}
+            fa, fb = np.isfinite(a), np.isfinite(b)
+            if not np.array_equal(fa, fb):
+                return {"finite_mismatch": True, "j": j, "kind_j": inp["kinds"][j], "q": q, "composite": a.tolist(), "single": b.tolist()}
+            if inp["kinds"][j] != "infinity" and not fb.all():
+                nan_ordinary = True
+            if fa.any():
+                e = float(np.max(np.abs(a[fa] - b[fa]) / (1 + np.abs(b[fb]))))
+                if e > worst:
+                    worst, where = e, {"j": j, "kind_j": inp["kinds"][j], "q": q}
+    return {"worst": worst, "where": where, "nan_ordinary": nan_ordinary}
+
+
+def judge_o_mixed(inp, obs, lr):
+    tags = {"dim": inp["dim"], "kind": inp["kind"], "count": len(inp["units"]), "kinds": sorted(set(inp["kinds"])),
+            "square_table": len(inp["units"]) == inp["dim"] + 1}
+    if "exc" in obs:
+        return {"expected": "parameters for every member", "observed": obs, "tags": dict(tags, exc=obs["exc"])}
+    if "shape" in obs or obs.get("finite_mismatch"):
+        return {"expected": "member i of the composite answer = the answer for member i alone (finite where that is finite)", "observed": obs, "tags": tags}
+    if obs["nan_ordinary"]:
+        return {"expected": "finite parameters for a member that does not pass through the half-space point at infinity", "observed": obs, "tags": tags}
+    if not obs["worst"] <= 1e-9:
+        return {"expected": "member i of the composite answer = the answer for member i alone", "observed": obs, "tags": tags}
+    return None
+
+
 CLAUSES = [
     Clause("ideal_corr", "corr", gen_ideal, run_ideal, judge_ideal, lean=lean_ideal, site="hyperbolic.Segment._compute_aux_data",
            budget={"quick": 120, "thorough": 3000}, what="Segment ideal endpoints vs Lean segmentIdeal over Q (dims 2-4, Klein-normalised and rescaled representatives)"),
@@ -1335,6 +1541,14 @@ CLAUSES = [
            budget={"quick": 150, "thorough": 5000},
            what="histories on Segment / Geodesic / Hyperplane / Subspace / Horosphere (single and composite): query, then iso @ obj, iso.apply, obj[i] = ..., "
                 "set(...), flatten_to_unit, slicing, then query again; every query equals that of a fresh object with the same data and is right in itself"),
+    Clause("magnitude_oracle", "oracle", gen_o_magnitude, run_o_magnitude, judge_o_magnitude, site="hyperbolic.Segment.circle_parameters",
+           budget={"quick": 120, "thorough": 4000},
+           what="G12: geodesics / segments whose chord passes at 1e-7..1e-2 from the centre (circle of radius up to 1e7: closed-form centre and radius, "
+                "relative tolerance 2e-13/h), segments with an endpoint at distance 10..16 (arc ends at tanh(d/2)u, extended-precision reference, tolerance 2e-15 e^d)"),
+    Clause("mixed_composite_oracle", "oracle", gen_o_mixed, run_o_mixed, judge_o_mixed, site="hyperbolic.Subspace.sphere_parameters",
+           budget={"quick": 100, "thorough": 3000},
+           what="G16: stacks of geodesics / segments of mixed kinds (ordinary, through the half-space point at infinity, almost through the centre, far endpoint; "
+                "2-6 members incl. exactly dim+1): member i of sphere_parameters / circle_parameters in both models = the single object's answer"),
     Clause("integer_data_oracle", "oracle", gen_o_intdata, run_o_intdata, judge_o_intdata, site="hyperbolic.Segment._compute_aux_data",
            budget={"quick": 120, "thorough": 3000},
            what="Segment / Geodesic / Hyperplane / Horosphere / Polygon built from integral data as int64, int32, nested lists of ints, float32, integer Points "
